@@ -349,6 +349,45 @@ func runC15(c *fw.Case) {
 				return
 			}
 		}
+		// a stored signature object may be replaced; every verification must be decided by what
+		// is stored *now* (no remembered verdict): replace certificate or algorithm only, verify,
+		// put the original back, verify again
+		if got && r.storeSig && ri%2 == 0 {
+			algo2, cert2, what := r.algo, other.pem, "certificate replaced"
+			if c.R.Intn(2) == 0 {
+				cert2, what = r.cert, "algorithm replaced"
+				algo2 = "sha256WithRsaEncryption"
+				if signer.rsaKey != nil {
+					algo2 = "ecdsaWithSha256"
+				}
+			}
+			for step, rec := range [][2]string{{algo2, cert2}, {r.algo, r.cert}} {
+				js, _ := json.Marshal(map[string]string{"signature": r.sig, "algorithm": rec[0], "certificate": rec[1]})
+				_, accepted, p := execSigOn(n, &sigtypes.MsgStoreSignature{Creator: creator, StorageKey: sk.StorageKey, SignatureJSON: string(js)})
+				if p != nil || !accepted {
+					break // replacing is refused on this tree: nothing to compare
+				}
+				want2 := independentVerify(c15Payload(r.addr, r.refID, r.link), r.sig, rec[0], rec[1])
+				var resp2 *sigtypes.QueryVerifySignatureResponse
+				var qerr2 error
+				if p := safeCall("VerifySignature", func() {
+					resp2, qerr2 = k.VerifySignature(sdk.WrapSDKContext(n.Ctx()), &sigtypes.QueryVerifySignatureRequest{ReferenceId: r.refID, TargetAccAddress: r.addr})
+				}); p != nil {
+					c.ViolateD("C15/verification-panicked/restored", p.Stack, "VerifySignature panicked after a stored signature was replaced: %s", short(p.Value, 200))
+					break
+				}
+				got2 := qerr2 == nil && resp2 != nil && resp2.Valid == "valid"
+				c.Count("verifications_after_replacement", 1)
+				if got2 != want2 {
+					c.ViolateD("C15/verification-unsound/after-replacement", map[string]string{"record": r.label, "what": what, "step": fmt.Sprint(step)},
+						"record %q, %s (step %d): VerifySignature says valid=%v, independent verification of what is stored now says %v", r.label, what, step, got2, want2)
+					break
+				}
+				if got2 && (resp2.Algorithm != rec[0] || resp2.Certificate != rec[1]) {
+					c.Violate("C15/response-fields", "record %q after replacement: returned algorithm / certificate are not the stored ones", r.label)
+				}
+			}
+		}
 		// overwrite attempts on links already published (also across a commit)
 		if ri%3 == 1 {
 			for key := range links {
